@@ -263,6 +263,10 @@ type Interp struct {
 	wraps                   map[*Value]IfaceV
 	nowSeq                  int
 	lastNowSec, lastNowNsec *Term
+	pcSet      map[int]bool
+	initBudget int
+	pending    []pendingChk
+	flushing   bool
 }
 
 type ufApp struct {
@@ -336,7 +340,17 @@ func (in *Interp) runPath(prefix []decision) {
 	in.lockHeld = map[*Value]bool{}
 	in.ackermann = map[string][]ufApp{}
 	in.pathNotes = nil
+	in.sol.onRestart = func() {
+		in.sol.Push()
+		for _, c := range in.pc {
+			in.sol.Assert(in.ts, c)
+		}
+		in.note("solver-restarted-mid-path")
+	}
 	in.wraps = nil
+	in.pcSet = map[int]bool{}
+	in.pending = nil
+	in.flushing = false
 	in.nowSeq = 0
 	in.lastNowSec, in.lastNowNsec = nil, nil
 	in.sol.Push()
@@ -359,6 +373,20 @@ func (in *Interp) runPath(prefix []decision) {
 		in.call(e.entry, nil, nil)
 		pe = pathEnd{Kind: "ok"}
 	}()
+	// decide the run-time checks still pending when the path ended (for
+	// whatever reason): a failing one turns the path into a panic path
+	func() {
+		defer func() {
+			if r := recover(); r != nil {
+				if p, ok := r.(pathEnd); ok {
+					pe = p
+					return
+				}
+				pe = pathEnd{Kind: "engine-error", Msg: fmt.Sprint(r), Pos: in.posStr()}
+			}
+		}()
+		in.flush()
+	}()
 	// a feasible panic / unwind is a violation candidate
 	switch pe.Kind {
 	case "panic":
@@ -366,6 +394,7 @@ func (in *Interp) runPath(prefix []decision) {
 	case "unwind":
 		in.reportViolation("unwind", pe.Msg, pe.Pos)
 	}
+	in.sol.onRestart = nil
 	in.sol.Pop()
 	e.mu.Lock()
 	e.ends[pe.Kind]++
@@ -440,8 +469,174 @@ func (in *Interp) addPC(t *Term) {
 	if t.IsTrue() {
 		return
 	}
+	if in.pcSet[t.id] {
+		return
+	}
+	in.pcSet[t.id] = true
+	if t.Op == OBAnd {
+		for _, a := range t.Args {
+			in.pcSet[a.id] = true
+		}
+	}
 	in.pc = append(in.pc, t)
 	in.sol.Assert(in.ts, t)
+	in.learn(t)
+}
+
+// learn refines the interval table from a constraint that now holds on this
+// path (sound: the path condition only grows).
+func (in *Interp) learn(c *Term) {
+	switch c.Op {
+	case OBAnd:
+		for _, a := range c.Args {
+			in.learn(a)
+		}
+	case OEq:
+		a, b := c.Args[0], c.Args[1]
+		if a.Sort.K != SBV {
+			return
+		}
+		if b.IsConst() {
+			in.setRange(a, b.Val, b.Val)
+		} else if a.IsConst() {
+			in.setRange(b, a.Val, a.Val)
+		}
+	case OUlt, OUle:
+		a, b := c.Args[0], c.Args[1]
+		d := uint64(0)
+		if c.Op == OUlt {
+			d = 1
+		}
+		al, _ := in.ival(a)
+		_, bh := in.ival(b)
+		if bh >= d {
+			in.setRange(a, 0, bh-d)
+		}
+		if al <= fullHi-d {
+			in.setRange(b, al+d, mask(b.Sort.W))
+		}
+	case OBNot:
+		x := c.Args[0]
+		switch x.Op {
+		case OUlt: // a >= b
+			a, b := x.Args[0], x.Args[1]
+			bl, _ := in.ival(b)
+			_, ah := in.ival(a)
+			in.setRange(a, bl, mask(a.Sort.W))
+			in.setRange(b, 0, ah)
+		case OUle: // a > b
+			a, b := x.Args[0], x.Args[1]
+			bl, _ := in.ival(b)
+			_, ah := in.ival(a)
+			if bl < fullHi {
+				in.setRange(a, bl+1, mask(a.Sort.W))
+			}
+			if ah > 0 {
+				in.setRange(b, 0, ah-1)
+			}
+		}
+	case OSlt, OSle:
+		// only when both sides are known non-negative (norm() rewrites those), nothing to learn otherwise
+	}
+}
+
+func (in *Interp) setRange(t *Term, lo, hi uint64) {
+	if t.IsConst() {
+		return
+	}
+	ol, oh := in.ival(t)
+	if lo < ol {
+		lo = ol
+	}
+	if hi > oh {
+		hi = oh
+	}
+	if lo > hi {
+		return // contradictory (path will be infeasible); keep old
+	}
+	if lo != ol || hi != oh {
+		in.vrange[t.id] = [2]uint64{lo, hi}
+		// propagate through zext / +const
+		switch t.Op {
+		case OZext:
+			in.setRange(t.Args[0], lo, hi)
+		case OAdd:
+			if t.Args[1].IsConst() {
+				c := t.Args[1].Val
+				al, ah := in.ival(t.Args[0])
+				// no wrap if ah + c does not overflow
+				m := mask(t.Sort.W)
+				if c <= m && ah <= m-c && lo >= c {
+					_ = al
+					in.setRange(t.Args[0], lo-c, hi-c)
+				}
+			}
+		}
+	}
+}
+
+// norm rewrites signed comparisons of provably non-negative operands into
+// unsigned ones (so that loop conditions and bounds checks share terms) and
+// decides comparisons by intervals / path-condition membership when possible.
+func (in *Interp) norm(c *Term) *Term {
+	ts := in.ts
+	switch c.Op {
+	case OBNot:
+		n := in.norm(c.Args[0])
+		if n != c.Args[0] {
+			return ts.Not(n)
+		}
+		return c
+	case OSlt, OSle:
+		a, b := c.Args[0], c.Args[1]
+		w := a.Sort.W
+		_, ah := in.ival(a)
+		_, bh := in.ival(b)
+		lim := uint64(1) << uint(w-1)
+		if ah < lim && bh < lim {
+			if c.Op == OSlt {
+				c = ts.Ult(a, b)
+			} else {
+				c = ts.Ule(a, b)
+			}
+		}
+	}
+	switch c.Op {
+	case OUlt:
+		al, ah := in.ival(c.Args[0])
+		bl, bh := in.ival(c.Args[1])
+		if ah < bl {
+			return ts.Bool(true)
+		}
+		if al >= bh {
+			return ts.Bool(false)
+		}
+	case OUle:
+		al, ah := in.ival(c.Args[0])
+		bl, bh := in.ival(c.Args[1])
+		if ah <= bl {
+			return ts.Bool(true)
+		}
+		if al > bh {
+			return ts.Bool(false)
+		}
+	}
+	if in.pcSet[c.id] {
+		return ts.Bool(true)
+	}
+	if c.Op == OBNot && in.pcSet[c.Args[0].id] {
+		return ts.Bool(false)
+	}
+	if nc := ts.Not(c); in.pcSet[nc.id] {
+		return ts.Bool(false)
+	}
+	// a <u b known, query a <=u b etc.
+	if c.Op == OUle {
+		if in.pcSet[ts.Ult(c.Args[0], c.Args[1]).id] {
+			return ts.Bool(true)
+		}
+	}
+	return c
 }
 
 func (in *Interp) setModel(m Model) {
@@ -465,9 +660,14 @@ func (in *Interp) feasible(t *Term) (Verdict, Model) {
 			return Sat, in.model
 		}
 	}
-	v, m := in.sol.Check(in.ts, t, true, in.ts.Vars)
+	tq := time.Now()
+	v, m := in.check(t, true, in.ts.Vars)
 	in.eng.mu.Lock()
 	in.eng.forkQueries++
+	if in.eng.cfg.Verbose {
+		in.eng.notes["q@"+in.posStr()+" "+v.String()]++
+		in.eng.notes["ms@"+in.posStr()] += int(time.Since(tq).Milliseconds())
+	}
 	in.eng.mu.Unlock()
 	return v, m
 }
@@ -581,6 +781,7 @@ func (in *Interp) noteDecision(alt int, why string) {
 
 // branch on a boolean term: returns true/false, forking when both feasible.
 func (in *Interp) branch(c *Term, why string) bool {
+	c = in.norm(c)
 	if c.IsTrue() {
 		return true
 	}
@@ -591,16 +792,122 @@ func (in *Interp) branch(c *Term, why string) bool {
 }
 
 // must: if ¬c is feasible, the current path splits off a panic path.
+//
+// Run-time checks (index / slice bounds, nil, divide by zero) are decided
+// lazily: the check is recorded as pending, execution continues under the
+// assumption that it holds, and all pending checks are decided by ONE query
+// before the next solver interaction of the path (branch feasibility,
+// assertion, concretisation, path end). Only when that query is satisfiable
+// are the checks decided one by one, and a failing one is reported as a
+// feasible panic with its own model.
+type pendingChk struct {
+	c     *Term
+	msg   string
+	pos   string
+	stack []string
+}
+
 func (in *Interp) must(c *Term, msg string) {
+	c = in.norm(c)
 	if c.IsTrue() {
 		return
 	}
-	if !in.branch(c, "chk@"+in.posStr()) {
+	if c.IsFalse() {
+		in.flush()
 		in.end("panic", msg)
+	}
+	if in.dpos < len(in.prefix) {
+		// replaying a prefix: the parent path has already decided this check
+		in.addPC(c)
+		return
+	}
+	in.pending = append(in.pending, pendingChk{c: c, msg: msg, pos: in.posStr(), stack: in.stackStr()})
+	in.pcSet[c.id] = true
+	in.learn(c)
+	if len(in.pending) >= 48 {
+		in.flush()
+	}
+}
+
+// check is the only way the interpreter talks to the solver: pending run-time
+// checks are decided first.
+func (in *Interp) check(extra *Term, wantModel bool, vars []*Term) (Verdict, Model) {
+	in.flush()
+	return in.sol.Check(in.ts, extra, wantModel, vars)
+}
+
+func (in *Interp) assertRaw(c *Term) {
+	in.pcSet[c.id] = true
+	in.pc = append(in.pc, c)
+	in.sol.Assert(in.ts, c)
+}
+
+func (in *Interp) flush() {
+	if len(in.pending) == 0 || in.flushing {
+		return
+	}
+	in.flushing = true
+	defer func() { in.flushing = false }()
+	pend := in.pending
+	in.pending = nil
+	ts := in.ts
+	cs := make([]*Term, len(pend))
+	for i, p := range pend {
+		cs[i] = p.c
+	}
+	conj := ts.AndN(cs...)
+	if len(pend) > 1 || true {
+		v, _ := in.sol.Check(ts, ts.Not(conj), false, nil)
+		if v == Unsat {
+			for _, p := range pend {
+				in.assertRaw(p.c)
+			}
+			return
+		}
+	}
+	// some check can fail (or undecided): decide them in order
+	for _, p := range pend {
+		v, m := in.sol.Check(ts, ts.Not(p.c), true, ts.Vars)
+		switch v {
+		case Sat:
+			save, savec := in.model, in.mcache
+			in.model = m
+			if in.model == nil {
+				in.model = Model{}
+			}
+			in.reportViolationAt("panic", p.msg, p.pos, p.stack)
+			in.model, in.mcache = save, savec
+			// can execution continue past the check at all?
+			v2, m2 := in.sol.Check(ts, p.c, true, ts.Vars)
+			if v2 == Unsat {
+				in.pending = nil
+				panic(pathEnd{Kind: "panic-reported", Msg: p.msg, Pos: p.pos})
+			}
+			if v2 == Sat {
+				in.setModel(m2)
+			} else {
+				in.model = nil
+			}
+		case Unknown:
+			in.note("runtime-check-undecided")
+			in.eng.mu.Lock()
+			o := in.obl("runtime check: " + p.msg)
+			o.Queries++
+			o.Unknown++
+			in.eng.mu.Unlock()
+			in.model = nil
+		}
+		in.assertRaw(p.c)
 	}
 }
 
 func (in *Interp) assume(c *Term, what string) {
+	in.assumeX(in.norm(c), what)
+}
+
+// assumeX adds a constraint without interval-based simplification (used for
+// the range constraints that define the intervals in the first place).
+func (in *Interp) assumeX(c *Term, what string) {
 	if c.IsTrue() {
 		return
 	}
@@ -619,7 +926,7 @@ func (in *Interp) assume(c *Term, what string) {
 		in.addPC(c)
 		return
 	}
-	v, m := in.sol.Check(in.ts, c, true, in.ts.Vars)
+	v, m := in.check(c, true, in.ts.Vars)
 	switch v {
 	case Unsat:
 		in.end("infeasible", "assume: "+what)
@@ -674,7 +981,7 @@ func (in *Interp) ensureModel() {
 	if in.model != nil {
 		return
 	}
-	v, m := in.sol.Check(in.ts, nil, true, in.ts.Vars)
+	v, m := in.check(nil, true, in.ts.Vars)
 	if v == Sat {
 		in.setModel(m)
 	} else if v == Unsat {
@@ -718,12 +1025,22 @@ func (in *Interp) vector(m Model) []map[string]interface{} {
 }
 
 func (in *Interp) reportViolation(kind, tag, pos string) {
+	in.reportViolationAt(kind, tag, pos, in.stackStr())
+}
+
+func (in *Interp) reportViolationAt(kind, tag, pos string, stack []string) {
 	in.ensureModelNoEnd()
 	m := in.model
 	if m == nil {
 		m = Model{}
 	}
-	v := Violation{Kind: kind, Tag: tag, Pos: pos, Vector: in.vector(m), PathLen: len(in.decs), Stack: in.stackStr()}
+	v := Violation{Kind: kind, Tag: tag, Pos: pos, Vector: in.vector(m), PathLen: len(in.decs), Stack: stack}
+	if in.eng.cfg.Verbose {
+		fmt.Fprintf(os.Stderr, "VIOLATION %s %s @%s\n  decisions=%v\n  sig=%s\n", kind, tag, pos, in.decs, in.sig.String())
+		for _, c := range in.pc {
+			fmt.Fprintf(os.Stderr, "  pc: %s\n", c.String())
+		}
+	}
 	e := in.eng
 	e.mu.Lock()
 	key := kind + "|" + tag + "|" + pos
@@ -738,7 +1055,7 @@ func (in *Interp) ensureModelNoEnd() {
 	if in.model != nil {
 		return
 	}
-	v, m := in.sol.Check(in.ts, nil, true, in.ts.Vars)
+	v, m := in.check(nil, true, in.ts.Vars)
 	if v == Sat {
 		in.setModel(m)
 	}
@@ -755,6 +1072,10 @@ func (in *Interp) obl(tag string) *Obligation {
 
 func (in *Interp) assertTerm(c *Term, tag string, mustFail bool) {
 	e := in.eng
+	in.flush()
+	if !mustFail {
+		c = in.norm(c)
+	}
 	if c.IsTrue() {
 		e.mu.Lock()
 		in.obl(tag).Trivial++
@@ -769,7 +1090,7 @@ func (in *Interp) assertTerm(c *Term, tag string, mustFail bool) {
 		in.ensureModelNoEnd()
 		m = in.model
 	} else {
-		v, m = in.sol.Check(in.ts, nc, true, in.ts.Vars)
+		v, m = in.check(nc, true, in.ts.Vars)
 	}
 	e.mu.Lock()
 	o := in.obl(tag)
